@@ -362,7 +362,11 @@ Proof.
   eapply leq_trans; [exact L1|].
   destruct (isort cl) as [|e [|e2 t]] eqn:Es.
   - apply Hfin. apply Forall_app; split; [exact Hver|repeat constructor; auto].
-  - destruct (r_two_way T r); apply Hfin; (apply Forall_app; split; [exact Hver|repeat constructor; auto]).
+  - destruct (r_two_way T r).
+    + cbv zeta. apply Hfin. apply Forall_app; split; [exact Hver|].
+      repeat match goal with |- context [if ?b then _ else _] => destruct b end;
+        cbn [app]; repeat constructor; auto.
+    + apply Hfin. apply Forall_app; split; [exact Hver|repeat constructor; auto].
   - apply Hfin. apply Forall_app; split; [exact Hver|repeat constructor; auto].
 Qed.
 
